@@ -1,4 +1,5 @@
 import TensorModel.Proofs.ShapeAlg
+import TensorModel.Proofs.CoreEq
 /-!
   C13 — shape algebra agrees with execution; reshape; metadata invariant.
   Property theorems only; helper lemmas live in `TensorModel/Proofs/ShapeAlg.lean`.
@@ -95,5 +96,33 @@ theorem T_covers (ap tap : AP) (len : Int) (axes ax' : List Int) (hr : ap.shape.
 -- non-vacuity
 example : Covers { shape := [2, 3], strides := [3, 1] } 6 := by
   refine ⟨rfl, ?_, ?_, by decide⟩ <;> intro x hx <;> simp at hx <;> omega
+
+/-! ## the source of the shape calculator
+
+`shape.go:Shape.S` — per-axis lengths through `SliceDetails`, then the in-place loop that deletes the
+dimensions of extent one selected by a non-nil slice while adjusting its own counters (`d--`, `dims--`,
+`offset++`) — is translated by `tools/gol` on every run; `Proofs/CoreEq.lean` proves the translation equal to
+the model function `shapeS` (value / error class) for every shape and slice list. -/
+
+theorem ShapeS_source_is_model (s : Shape) (sls : List (Option Sl)) :
+    Gen.clsE (Gen.Shape_S s sls) = Gen.clsM (shapeS s sls) := Gen.Shape_S_eq s sls
+
+/-- hence: the source calculator refuses exactly when the executed slicing (`AP.S`, model) refuses -/
+theorem ShapeS_source_err_iff_apS_err (ap : AP) (size : Int) (sls : List (Option Sl))
+    (hlen : ap.strides.length = ap.shape.length) :
+    Gen.clsE (Gen.Shape_S ap.shape sls) = .err ↔ ∃ t, ap.S size sls = .error (.err t) := by
+  rw [ShapeS_source_is_model, ← shapeS_err_iff_apS_err ap size sls hlen]
+  constructor
+  · intro h
+    cases hr : shapeS ap.shape sls with
+    | ok v => rw [hr] at h; cases h
+    | error e => cases e with
+      | err t => exact ⟨t, rfl⟩
+      | panic t => rw [hr] at h; cases h
+  · intro ⟨t, h⟩; rw [h]; rfl
+
+-- (finding F3 at work: the stepped axis 1:4:2 has two elements, the source floors it to one and then drops it)
+example : Gen.clsE (Gen.Shape_S [2, 3, 4] [some ⟨0, 1, 1⟩, none, some ⟨1, 4, 2⟩]) = .val [3] := by decide
+example : Gen.clsE (Gen.Shape_S [2, 3, 4] [some ⟨0, 1, 1⟩, none, some ⟨0, 4, 2⟩]) = .val [3, 2] := by decide
 
 end TM.C13
